@@ -168,8 +168,11 @@ def gen_cmp(tier, rnd):
                             b = nearest_float(spectab.to_unit(A * (1 + Fraction(rel)), k2, u2))
                             if legal(k2, b) and b != 0.0:
                                 evs.append(cmp_event(i, k1, u1, a, k2, u2, b, f'gap{rel}')); i += 1
-                        if legal(k1, -a) and legal(k2, -b_same) and tier != 'quick':
-                            evs.append(cmp_event(i, k1, u1, -a, k2, u2, b_same, 'sign')); i += 1
+                        if legal(k1, -a) and legal(k2, -b_same):
+                            # the same NEGATIVE magnitude in two units (equal: neither less nor greater), and opposite signs
+                            evs.append(cmp_event(i, k1, u1, -a, k2, u2, -b_same, 'same-neg')); i += 1
+                            if tier != 'quick':
+                                evs.append(cmp_event(i, k1, u1, -a, k2, u2, b_same, 'sign')); i += 1
                     if legal(k1, 0.0) and legal(k2, 0.0):
                         evs.append(cmp_event(i, k1, u1, 0.0, k2, u2, 0.0, 'zero')); i += 1
                         for tiny in (1e-20, 3e-9):
